@@ -148,6 +148,7 @@ class AsyncPersistWorld:
         self.run = AsyncRun(cfg["persistence"])
         self.gw = self.run.gw
         self.dead = None
+        self.started = False
 
     def apply(self, ev):
         from ..world import Obs, exc_info
@@ -170,6 +171,25 @@ class AsyncPersistWorld:
             elif ev[0] == "set":
                 self.run.loop.call(self.gw.set_child_value, ev[1], ev[2], ev[3], ev[4])
                 self.run.loop.run_ready()
+            elif ev[0] == "start":
+                # the transport side: gateway.start() dials through the (fake) serial_asyncio
+                import types
+
+                import mysensors.gateway_serial as gs
+
+                loop = self.run.loop
+                gs.serial_asyncio = types.SimpleNamespace(create_serial_connection=loop.create_serial_connection)
+                if not self.started:
+                    self.started = True
+                    loop.start(self.gw.start())
+            elif ev[0] == "conn-ok":
+                if self.run.loop.live_requests():
+                    self.run.loop.answer_connection("ok")
+            elif ev[0] == "lost":
+                links = [t for t in self.run.loop.links_made if not t.lost_reported]
+                if links:
+                    self.run.loop.call(links[-1]._report_lost, ConnectionResetError("device error (harness)"))
+                    self.run.loop.run_ready()
         except Exception as exc:  # pylint: disable=broad-except
             obs.exc = exc_info(exc)
             obs.where = "call"
@@ -196,7 +216,9 @@ class AsyncPersistWorld:
         for name in sorted(os.listdir(self.run.dir)):
             with open(os.path.join(self.run.dir, name), "rb") as fh:
                 files.append((name, canon.digest(fh.read()).hex()))
-        text = repr((canon.walk(self.gw.sensors), self.gw.tasks.persistence.need_save, tuple(files), len(self.run.loop.pending_timers()), repr(self.dead), extra))
+        loop = self.run.loop
+        link = (self.started, len(loop.live_requests()), len([t for t in loop.links_made if not t.lost_reported]), self.gw.tasks.transport.connect_task is not None)
+        text = repr((canon.walk(self.gw.sensors), self.gw.tasks.persistence.need_save, tuple(files), len(loop.pending_timers()), link, repr(self.dead), extra))
         return hashlib.blake2b(text.encode("utf-8", "surrogatepass"), digest_size=12).digest()
 
     def snapshot(self):
@@ -219,7 +241,7 @@ class C14AsyncSpec(explore.Spec):
 
     def alphabet(self, cfg):
         t = alpha.lines("2.2")
-        return [alpha.rx(t[n]) for n in ("PA", "CA0", "SA0", "BAT", "IDR", "PSA", "CFG")] + [("tick",), ("tickfail", "fsync"), ("set", 1, 0, 2, "0")]
+        return [alpha.rx(t[n]) for n in ("PA", "CA0", "SA0", "BAT", "IDR", "PSA", "CFG")] + [("tick",), ("tickfail", "fsync"), ("set", 1, 0, 2, "0"), ("start",), ("conn-ok",), ("lost",)]
 
     def new_monitor(self, cfg):
         return NullMonitor()
